@@ -280,6 +280,7 @@ impl<'a> Parser<'a> {
                 if !self.check_keyword(KeywordId::Import)
                     && !self.check_keyword(KeywordId::As)
                     && !self.check(&TokenKind::Newline)
+                    && !self.is_at_end()
                 {
                     return Err(CompileError::syntax(
                         "Expected '::' or '.' after 'super'".to_string(),
@@ -574,8 +575,9 @@ impl<'a> Parser<'a> {
         let return_type = self.type_expr()?;
 
         // Check for abstract method (no body), ellipsis, or block
-        let body = if self.check(&TokenKind::Newline) {
-            // Abstract method with just newline (trait definition)
+        let body = if self.check(&TokenKind::Newline) || self.check(&TokenKind::Dedent) || self.is_at_end() {
+            // Abstract method with just newline (trait definition); at end of file the lexer emits
+            // DEDENT/EOF without a NEWLINE when the file has no final newline
             None
         } else if self.match_punct(PunctuationId::Colon) {
             if self.match_punct(PunctuationId::Ellipsis) {
